@@ -185,7 +185,7 @@ class C04Signals(Machine):
             grids.append({"t0": t0, "dt": dt, "n": n})
         w = {k: rng.random() for k in
              ("buf", "construct", "copy", "add", "radd", "scale", "iscale",
-              "shift", "with_times", "mutate_buffer", "mutate_signal", "sum", "filter")}
+              "shift", "with_times", "mutate_buffer", "mutate_signal", "sum", "filter", "set_buffers")}
         w["construct"] += 1.0
         w["buf"] += 0.5
         return {"n_steps": rng.pick([3, 5, 8, 12, 20, 30, 40]),
@@ -219,7 +219,7 @@ class C04Signals(Machine):
                    ("construct", cfg["weights"]["construct"])]
         if live:
             for k in ("copy", "add", "radd", "scale", "iscale", "shift",
-                      "with_times", "mutate_signal", "sum", "filter"):
+                      "with_times", "mutate_signal", "sum", "filter", "set_buffers"):
                 choices.append((k, cfg["weights"].get(k, 0.5)))
         if live_b:
             choices.append(("mutate_buffer", cfg["weights"]["mutate_buffer"]))
@@ -308,6 +308,11 @@ class C04Signals(Machine):
                 n = max(1, g["n"] + rng.randint(-2, 3))
                 op["times"] = [g["t0"] + g["dt"] * (i + off) for i in range(n)]
             return op
+        if kind == "set_buffers":
+            return {"op": "set_buffers", "a": rng.pick(live),
+                    "leading": rng.pick([None, 0, g["dt"] * rng.pick([1, 3, 5])]),
+                    "trailing": rng.pick([None, 0, g["dt"] * rng.pick([1, 2, 6])]),
+                    "force": rng.chance(0.4)}
         if kind == "filter":
             return {"op": "filter", "a": rng.pick(live), "fc": float("%.4g" % (rng.uniform(0.03, 0.3) / g["dt"])),
                     "force_real": rng.chance(0.7)}
@@ -480,6 +485,23 @@ class C04Signals(Machine):
         self.models[op["a"]] = self._snapshot(a, ma)
         self.count("probe.filtered_slots")
         return ["filter"]
+
+    def _op_set_buffers(self, op):
+        """Buffer changes of one function-backed signal (the slot's own snapshot is
+        refreshed; every other slot must stay as it was)."""
+        P = self.pyrex
+        a, ma = self._need_slot(op["a"])
+        if not (ma.function_backed and isinstance(a, P.FunctionSignal)) or len(ma.times) < 2:
+            raise Skip("only function-backed signals have buffers")
+        d = np.diff(np.asarray(ma.times, dtype=float))
+        if np.any(d <= 0):
+            raise Skip("buffers need an increasing grid")
+        st, _ = self.sut(a.set_buffers, leading=op["leading"], trailing=op["trailing"], force=op["force"],
+                         where="set_buffers")
+        if ma.kind == "X":
+            self.models[op["a"]] = self._snapshot(a, ma)
+        self.count("probe.set_buffers")
+        return ["set_buffers"]
 
     def _op_copy(self, op):
         sig, model = self._need_slot(op["src"])
